@@ -54,6 +54,7 @@ func main() {
 	maxSteps := flag.Int64("max-steps", 20000000, "SSA instructions per path (unwinding bound)")
 	maxDepth := flag.Int("max-depth", 400, "call depth bound")
 	delay := flag.Int("delay-bound", 2, "scheduler delay bound")
+	witnesses := flag.Int("witnesses", 0, "keep up to N models of completed paths per cover id (for native validation)")
 	mapOrder := flag.Int("map-order", 0, "explore iteration orders of maps with at most N entries (0: insertion order)")
 	mapOrderIn := flag.String("map-order-in", "", "comma-separated substrings of function names whose range-over-map statements are permuted")
 	knownFile := flag.String("known", "", "known findings JSON (open predicates)")
@@ -356,7 +357,7 @@ func main() {
 		}
 		eng := &sym.Engine{Prog: prog, Stubs: js, Opaque: opaque, NoInit: noinit, Embeds: embeds, Pure: pure}
 		eng.Cfg = sym.Config{Workers: *workers, MaxPaths: *maxPaths, MaxDecisions: *maxDec, MaxSteps: *maxSteps,
-			MaxDepth: *maxDepth, DelayBound: *delay, MapOrder: *mapOrder, MapOrderIn: splitNonEmpty(*mapOrderIn), Params: j.Params, Known: known, Transcript: *transcript,
+			MaxDepth: *maxDepth, DelayBound: *delay, Witnesses: *witnesses, MapOrder: *mapOrder, MapOrderIn: splitNonEmpty(*mapOrderIn), Params: j.Params, Known: known, Transcript: *transcript,
 			Verbose: *verbose, TimeBudget: *timeBudget, ConcreteClock: *clockMode == "concrete"}
 		r := eng.Run(fn)
 		res.Jobs = append(res.Jobs, r)
